@@ -2,6 +2,8 @@ import FlacVerif.Model.Rice
 import FlacVerif.Model.Codes
 import FlacVerif.Model.Predict
 import FlacVerif.Model.Source
+import FlacVerif.Model.Encoder
+import FlacVerif.Model.Md5
 import FlacVerif.Driver.Proto
 namespace FlacVerif.Drv
 open FlacVerif Proto
@@ -75,6 +77,22 @@ def kernelRecord (r : Record) : List Verdict × List String :=
       | some f, some (_, flag) => check "c01.lpcfits" (if flag then "1" else "0") f :: vs
       | _, _ => vs
     (vs, [s!"lpcerr.exactfits={fits}"])
+  | "ctx" =>
+    -- `Context` fed block by block (Model/Encoder.lean `Ctx`): both delivery paths
+    let ch := r.nat "ch"
+    let bps := r.nat "bps"
+    let k := (bps + 7) / 8
+    let lens := ((r.get "lens").splitOn ",").map fun t => t.toNat?.getD 0
+    let data := intList (r.get "data")
+    let step (bytesPath : Bool) (st : Ctx × List Int) (n : Nat) : Ctx × List Int :=
+      let block := st.2.take (n * ch)
+      let c := if bytesPath then st.1.fillLeBytes ch k (block.flatMap (Rfc.toLeBytes k)) else st.1.fillInterleaved bps ch block
+      (c, st.2.drop (n * ch))
+    let render (c : Ctx) : String :=
+      s!"{hex (Md5.md5 c.hashed)}:{c.samples}:{if c.frames = 0 then "none" else toString (c.frames - 1)}"
+    let ci := (lens.foldl (step false) (⟨[], 0, 0⟩, data)).1
+    let cb := (lens.foldl (step true) (⟨[], 0, 0⟩, data)).1
+    ([check "c14.ctxint" (render ci) (r.get "impl_int"), check "c14.ctxbytes" (render cb) (r.get "impl_bytes")], [])
   | "deint" =>
     let ch := r.nat "ch"
     let stride := r.nat "stride"
